@@ -225,3 +225,51 @@ def _loaded_fields(f, o, depth=0):
         if r:
             return r
     return ()
+
+
+def r7_error_term_width(ck, P):
+    """T-WID: the Bresenham error term of an edge is 48.16; quotients of it are formed before any narrowing"""
+    R = ck.rule('C12-R7', 'every division or remainder whose dividend derives from the 64-bit edge error term (ne) is computed at 64 bits: no truncation sits between the error term and the division, so that steps of |n*dx| >= 2^31 move the edge by the exact number of pixels', floor=3)
+    u = P.units.get('pixman-trap.c')
+    n = 0
+    for f in (u.functions.values() if u else []):
+        ne = {x.i for x in f.insts() if x.dv == 'ne' and x.ty == 'i64'}
+        if not ne:
+            continue
+        memo = {}
+
+        def from_ne(o, d=0):
+            """(derives from ne, narrowed on the way)"""
+            if o[0] != 'v' or d > 20:
+                return (False, False)
+            if o[1] in memo:
+                return memo[o[1]]
+            memo[o[1]] = (False, False)
+            x = f.by_id[o[1]]
+            if x.i in ne:
+                r = (True, False)
+            elif x.op in ('trunc',):
+                a = from_ne(x.a[0], d + 1)
+                src = f.v(x.a[0])
+                r = (a[0], a[1] or (a[0] and src is not None and src.ty == 'i64'))
+            elif x.op in ('sub', 'add', 'sext', 'zext', 'phi', 'freeze'):
+                rs = [from_ne(a, d + 1) for a in x.a]
+                r = (any(q[0] for q in rs), any(q[0] and q[1] for q in rs))
+            else:
+                r = (False, False)
+            memo[o[1]] = r
+            return r
+
+        for x in f.insts():
+            if x.op not in ('sdiv', 'srem', 'udiv', 'urem'):
+                continue
+            d_, narrowed = from_ne(x.a[0])
+            if not d_:
+                continue
+            n += 1; ck.saw(f)
+            if narrowed or x.ty != 'i64':
+                ck.violation(R, f.name, 'error term narrowed before %s' % x.op, '%s truncates the 64-bit error term before dividing it by dy: once |n*dx| reaches 2^31 the quotient, and with it the x position of the edge on every row of the trapezoid, is off by whole pixels' % f.name, x.loc())
+            else:
+                ck.ok(R, '%s: %s of the error term at 64 bits (%s)' % (f.name, x.op, x.loc()))
+    if n == 0:
+        ck.incomplete(R, 'no division of the edge error term found in pixman-trap.c')
